@@ -99,7 +99,7 @@ def run(tier, seed, replay):
     else:
         cases = gather(ck, tier, seed, FAMILIES)
         if tier != "quick":
-            cases += deep(ck, seed, FAMILIES, 1500, 3)
+            cases += deep(ck, seed, FAMILIES, 500, 3)
         else:
             # a few histories of two and three updates (branch re-creation then update, list growth then shrinkage, ...)
             cases += deep(ck, seed, ["F4", "F5", "UD", "US", "UP"], 60, 3)
